@@ -217,6 +217,57 @@ theorem C14_outputs (declared controls : List String) (n : String) :
     n ∈ outputsOf declared controls ↔ n ∈ declared ∨ n ∈ controls := by
   simp [outputsOf]
 
+/-- **Outputs, with multiplicity**: a name is listed in `output_variables` as often as it is declared
+    an output plus as often as it is a control, and the list is the declared outputs followed by the
+    controls: no control is dropped or merged because some declared output happens to carry (through
+    an alias) the same series. -/
+theorem C14_outputs_count (declared controls : List String) (n : String) :
+    (outputsOf declared controls).count n = declared.count n + controls.count n ∧
+    outputsOf declared controls = declared ++ controls := by
+  simp [outputsOf, List.count_append]
+
+/-- **The controls are the non-fixed inputs**: `dae_variables["control_inputs"]` holds the name of
+    an input iff the input is not a delay state, not a lookup table and not declared fixed. -/
+theorem C14_controls (inputs : List InputRec) (n : String) :
+    n ∈ controlsOf inputs ↔
+      ∃ i ∈ inputs, i.name = n ∧ i.isDelay = false ∧ i.isLookup = false ∧ i.fixed = false := by
+  unfold controlsOf
+  rw [mem_roleListOf]
+  constructor
+  · rintro ⟨i, hi, hr, hn⟩
+    exact ⟨i, hi, hn, (C14_roles i.isDelay i.isLookup i.fixed).1.1 hr⟩
+  · rintro ⟨i, hi, hn, h⟩
+    exact ⟨i, hi, (C14_roles i.isDelay i.isLookup i.fixed).1.2 h, hn⟩
+
+/-- **Every control is exported, exactly once, under its own name** -- whatever the declared outputs
+    are (in particular when a declared output is an alias, possibly negated, of that control: the
+    alias relation is no input of `exportedOf`).  For pairwise distinct input names (pymoca's
+    `inputs`) and declared output names that are not input names (Modelica: one prefix per
+    component): every input that is not delay / lookup / fixed occurs exactly once in
+    `output_variables`, every other input not at all, every declared output as often as declared. -/
+theorem C14_exported (declared : List String) (inputs : List InputRec)
+    (hnd : (inputs.map (·.name)).Nodup) (hdisj : ∀ i ∈ inputs, i.name ∉ declared) :
+    (∀ i ∈ inputs, (exportedOf declared inputs).count i.name =
+        if i.isDelay = false ∧ i.isLookup = false ∧ i.fixed = false then 1 else 0) ∧
+    (∀ n ∈ declared, (exportedOf declared inputs).count n = declared.count n) ∧
+    (∀ n, n ∈ exportedOf declared inputs ↔ n ∈ declared ∨ n ∈ controlsOf inputs) := by
+  refine ⟨?_, ?_, ?_⟩
+  · intro i hi
+    have h0 : declared.count i.name = 0 := List.count_eq_zero.2 (hdisj i hi)
+    rw [exportedOf, (C14_outputs_count _ _ _).1, h0, controlsOf, count_roleListOf _ _ hnd i hi, Nat.zero_add]
+    have := (C14_roles i.isDelay i.isLookup i.fixed).1
+    by_cases h : i.role = .control
+    · rw [if_pos h, if_pos (this.1 h)]
+    · rw [if_neg h, if_neg (fun h' => h (this.2 h'))]
+  · intro n hn
+    have h0 : (controlsOf inputs).count n = 0 := by
+      rw [List.count_eq_zero]
+      intro hm
+      obtain ⟨i, hi, hin, _⟩ := (C14_controls inputs n).1 hm
+      exact hdisj i hi (hin ▸ hn)
+    rw [exportedOf, (C14_outputs_count _ _ _).1, h0, Nat.add_zero]
+  · intro n; exact C14_outputs _ _ n
+
 /-! ## simulation: start / fixed / initial_state / seed precedence -/
 
 /-- **Simulation precedence** for a literal start `x` (`v = python_type(x)`):
@@ -272,6 +323,19 @@ example : boundsOf exEnv (some (.fin (-1), .fin 100)) exDecl = some (.fin (-1), 
     ∧ historyOf exEnv exDecl = .put (.fin 2)
     ∧ seedOf exEnv exDecl = .keep
     ∧ boundsOf exEnv none { exDecl with max := .sym 1 "pfree" 0 } = none := by
+  refine ⟨?_, ?_, ?_, ?_, ?_⟩ <;> decide +kernel
+
+/-- `input u(fixed=false)`, `input q` (no `fixed`), `input c(fixed=true)`, a lookup input and a
+    delay state, with declared outputs `u_out` (= u), `y`, `nq` (= -q): both controls are exported
+    next to the outputs that are their aliases -/
+def exInputs : List InputRec :=
+  [⟨"u", false, false, false⟩, ⟨"q", false, false, false⟩, ⟨"c", false, false, true⟩,
+   ⟨"tab", false, true, false⟩, ⟨"yd", true, false, false⟩]
+
+example : exportedOf ["u_out", "y", "nq"] exInputs = ["u_out", "y", "nq", "u", "q"]
+    ∧ (exInputs.map (·.name)).Nodup ∧ (∀ i ∈ exInputs, i.name ∉ ["u_out", "y", "nq"])
+    ∧ (exportedOf ["u_out", "y", "nq"] exInputs).count "u" = 1
+    ∧ (exportedOf ["u_out", "y", "nq"] exInputs).count "c" = 0 := by
   refine ⟨?_, ?_, ?_, ?_, ?_⟩ <;> decide +kernel
 
 end RtcVerif.C14
